@@ -291,6 +291,16 @@ def _topologies(repo):
         t.link(oa, [], b, "in1")
         t.link(ox, [PASS], b, "in2")
         out.append((f"missing-upstream:{'same' if same_names else 'distinct'}-names", t, [a, b]))
+        # the forgotten source offers a static output (the scheduler never looks up owners of static outputs, validation must)
+        for chain, static_in in (([], True), ([PASS], True), ([PASS], False)):
+            t = Topo(repo)
+            a, b = t.comp("A"), t.comp("B")
+            x = t.comp("X")
+            oa = t.output(a, "out")
+            ox = t.output(x, "out" if same_names else "xout", static=True)
+            t.link(oa, [], b, "in1")
+            t.link(ox, list(chain), b, "in2", static_in=static_in)
+            out.append((f"missing-upstream:static-output:{'>'.join(chain) or 'direct'}:static-input={static_in}:{'same' if same_names else 'distinct'}-names", t, [a, b]))
     # a pull-only source feeds a pull-type and a push-type consumer (directly and behind pass-through adapters): the chain to the
     # push-type consumer is dead whichever consumer is listed / linked first
     for n_pass in (0, 1, 2):
